@@ -793,6 +793,9 @@ def net_oracle(case, o):
     if "harness_exception" in o:
         return []
     bad = oracle({"ops": []}, {"steps": [], "_expect": [], "_views": o.get("_views")})
+    # a clash of data references (two gates, one dictionary key, different arrays) is keyed by the class that named the data
+    bad = [((f"C05:tensornet-view:dataref-clash:{'RotationGate' if 'for Rn(' in w else 'other'}", w)
+            if isinstance(w, str) and "tensor data entries for" in w else (k, w)) for k, w in bad]
     if isinstance(o.get("net"), dict) and "tensors" in o["net"]:
         n = sum(f[1] for f in o["_fields"])
         if not o["consistent"]:
